@@ -48,7 +48,32 @@ def min_nontrivial(tier):
     return 30 if tier == "quick" else 300
 
 
+def chained_case(rng):
+    """2..4 qualitative features sharing one hierarchy, for ChainedDiscretizer (modalities rare in one feature, frequent in another)"""
+    from . import c18
+    leaves, levels = c18.make_hierarchy(rng)
+    n = int(gen.pick(rng, [100, 200, 400]))
+    c = gen.Case()
+    cols = {}
+    for j in range(int(rng.integers(2, 5))):
+        p = rng.dirichlet(np.ones(len(leaves)) * gen.pick(rng, [0.3, 0.8, 2.0]))
+        v = np.array([leaves[k] for k in rng.choice(len(leaves), n, p=p)], dtype=object)
+        if rng.random() < 0.3:
+            v[rng.random(n) < 0.1] = np.nan
+        cols[f"c{j}"] = v
+    c.X = pd.DataFrame(cols)
+    c.y = pd.Series((rng.random(n) < 0.5).astype(int))
+    c.y.iloc[0], c.y.iloc[1] = 0, 1
+    c.qual = list(cols)
+    c.kind = "binary"
+    c.config = {"min_freq": gen.pick(rng, [0.05, 0.1, 0.2]), "max_n_mod": 3, "dropna": True, "output_dtype": "str", "copy": True, "min_freq_mod": None, "sort_by": "tschuprowt"}
+    c.meta = {"chained_levels": levels, "leaves": leaves}
+    return c
+
+
 def make_case(rng):
+    if rng.random() < 0.15:
+        return chained_case(rng), "chained"
     case = gen.multi_feature_case(rng, kind=gen.pick(rng, ["binary", "binary", "continuous"]), n=int(gen.pick(rng, [120, 250, 500])),
                                   n_feat=int(rng.integers(2, 7)), with_dev=rng.random() < 0.2)
     which = gen.pick(rng, ["carver", "carver", "Discretizer"])
@@ -93,9 +118,16 @@ def dump_of(case, which, n_jobs=1, features=None, column_order=None, list_order=
         c.X, c.y = case.X[cols].copy(), case.y.copy()
         c.X_dev = None if case.X_dev is None else case.X_dev[cols].copy()
         c.y_dev = None if case.y_dev is None else case.y_dev.copy()
-    obj = common.make_estimator(c, which, n_jobs=n_jobs)
-    iteration_order = list(obj.features)
-    common.fit_any(c, obj)
+    if which == "chained":
+        from AutoCarver.discretizers.utils.qualitative_discretizers import ChainedDiscretizer
+        obj = ChainedDiscretizer(qualitative_features=list(c.qual), min_freq=c.config["min_freq"],
+                                 chained_orders=[{k: list(v) for k, v in g.items()} for g in case.meta["chained_levels"]], copy=True, n_jobs=n_jobs)
+        iteration_order = list(obj.features)
+        obj.fit(c.X, c.y)
+    else:
+        obj = common.make_estimator(c, which, n_jobs=n_jobs)
+        iteration_order = list(obj.features)
+        common.fit_any(c, obj)
     out = obj.transform(c.X)
     dump = {}
     for f in obj.features:
